@@ -3,12 +3,14 @@
 # property must report it (exit 1).  Prints one line per change; exit 1 if any change goes unreported.
 cd "$(dirname "$0")/.."
 bad=0
+tmp=$(mktemp /var/tmp/seedmx.XXXXXX)
 for d in seeded/*/; do
   id=$(basename $d)
   pid=$(python3 -c "import json;m=json.load(open('$d/meta.json'));print((m['detected_by'] or [m['property']])[0])")
-  out=$(python3 tools/seed_eval.py $d $pid --no-suite 2>/dev/null)
-  rc=$(echo "$out" | python3 -c "import json,sys;o=json.load(sys.stdin);print(o['checks']['$pid']['rc'], o['demo']['with_change_rc'], o['demo']['without_change_rc'])")
+  python3 tools/seed_eval.py $d $pid --no-suite > $tmp 2>/dev/null
+  rc=$(python3 -c "import json;o=json.load(open('$tmp'));print(o['checks']['$pid']['rc'], o['demo']['with_change_rc'], o['demo']['without_change_rc'])")
   echo "$id check=$pid rc/demo_with/demo_without: $rc"
   case "$rc" in "1 1 0") ;; *) bad=1;; esac
 done
+rm -f $tmp
 exit $bad
